@@ -497,3 +497,27 @@ def m_json_dumps(ctx, args, kw):
 
 
 m_json_dumps.always = True
+
+
+@nmodel(unicodedata.normalize)
+def m_normalize(ctx, args, kw):
+    form, s = args[0], args[1]
+    if not isinstance(form, str):
+        raise Undecided("normalize form")
+    f = z3.Function("normalize_" + form, E.PStr, E.PStr)
+    return SStr([OStr(f(E.pstr_term(as_sstr(s))), "normalize_" + form)])
+
+
+@nmodel(hashlib.pbkdf2_hmac)
+def m_pbkdf2(ctx, args, kw):
+    names = ["hash_name", "password", "salt", "iterations", "dklen"]
+    a = dict(zip(names, args))
+    a.update(kw)
+    hn, rounds, dklen = a["hash_name"], simplify_native(a["iterations"]), a.get("dklen")
+    if hn != "sha512":
+        raise Undecided("pbkdf2 with hash " + str(hn))
+    if is_sym(rounds):
+        raise Undecided("symbolic pbkdf2 round count")
+    if dklen is None:
+        dklen = 64
+    return U.pbkdf2_sha512(simplify_native(a["password"]), simplify_native(a["salt"]), rounds, dklen)
